@@ -15,14 +15,17 @@ import (
 	"go/ast"
 	"go/token"
 	"go/types"
+	"sort"
+	"strings"
 )
 
 type litInfo struct {
-	lit   *ast.FuncLit
-	owner *FuncInfo
-	ord   int
-	blk   *Block
-	info  *types.Info
+	checked bool
+	lit     *ast.FuncLit
+	owner   *FuncInfo
+	ord     int
+	blk     *Block
+	info    *types.Info
 }
 
 type traceState struct {
@@ -185,8 +188,148 @@ func (u *Unit) callbackHavoc(env *Env) {
 	if u.Block == nil || u.Block.Opts["callback-havoc"] == "" {
 		return
 	}
-	u.havocHeaps(env, nil)
+	// rely: during a callback the listed objects may change arbitrarily (the callback may call their exported methods);
+	// every other object that exists keeps its contents
+	refs := map[string][]Term{}
+	sc := *u.ownCtx
+	for _, part := range splitTopLevel(u.Block.Opts["callback-havoc"], ';') {
+		part = strings.TrimSpace(part)
+		if part == "" {
+			continue
+		}
+		save := u.inSpec
+		u.inSpec = true
+		v := u.sv(u.parseSpec(Clause{Text: part}), env, &sc)
+		u.inSpec = save
+		if v.Sort != SRef {
+			unsup("callback-havoc target of sort %s", v.Sort)
+		}
+		prefix := ""
+		if v.Ty != nil {
+			if pt, ok := types.Unalias(v.Ty).Underlying().(*types.Pointer); ok {
+				if si := u.maybeStruct(pt.Elem()); si != nil {
+					prefix = "FH_" + si.GoName + "_"
+				}
+			}
+		}
+		refs[prefix] = append(refs[prefix], v.Term)
+	}
+	var names []string
+	for n := range env.heaps {
+		names = append(names, n)
+	}
+	sort.Strings(names)
+	for _, n := range names {
+		old := env.heaps[n]
+		if !strings.HasPrefix(string(old.Sort), "(Array Ref ") {
+			continue
+		}
+		nh := u.D.Fresh("cb_"+n, old.Sort)
+		r := u.D.Bound("r", SRef)
+		guard := lt(u.birth(r), env.clock)
+		for _, x := range modsFor(refs, n) {
+			guard = And(guard, Not(Same(r, x)))
+		}
+		env.assume(Forall([]Term{r}, Imp(guard, Same(Select(nh, r), Select(old, r))), []Term{Select(nh, r)}))
+		env.heaps[n] = nh
+	}
+	nc := u.D.Fresh("clk", SInt)
+	env.assume(le(env.clock, nc))
+	env.clock = nc
 	u.heapsHavocked = true
+}
+
+// a closure that escapes (is handed to a callee that may run it later) must not capture variables that change after
+// its creation: loop variables (one variable per loop before Go 1.22, per go.mod) and variables assigned later
+func (u *Unit) checkStableCaptures(env *Env, li *litInfo, at ast.Node) {
+	if li == nil || li.lit == nil || li.checked {
+		return
+	}
+	li.checked = true
+	lit := li.lit
+	seen := map[*types.Var]bool{}
+	ast.Inspect(lit.Body, func(n ast.Node) bool {
+		id, ok := n.(*ast.Ident)
+		if !ok {
+			return true
+		}
+		v, ok := li.info.Uses[id].(*types.Var)
+		if !ok || v.IsField() || v.Pkg() == nil || v.Parent() == v.Pkg().Scope() || seen[v] {
+			return true
+		}
+		if v.Pos() >= lit.Pos() && v.Pos() <= lit.End() {
+			return true
+		}
+		seen[v] = true
+		why := u.unstableReason(li, v, at)
+		u.assert(env, fmt.Sprintf("capture/stable/lit%d/%s", li.ord, v.Name()), "capture", at.Pos(),
+			"closure handed away captures "+v.Name()+" by reference; it must not change afterwards"+why, boolTerm(why == ""))
+		return true
+	})
+}
+
+func (u *Unit) unstableReason(li *litInfo, v *types.Var, at ast.Node) string {
+	decl := li.owner.Decl
+	reason := ""
+	// loops that contain the hand-off but not the variable's declaration: an assignment anywhere in such a loop can run after
+	// the hand-off of an earlier iteration
+	var loops []ast.Node
+	ast.Inspect(decl.Body, func(n ast.Node) bool {
+		switch n.(type) {
+		case *ast.ForStmt, *ast.RangeStmt:
+			if n.Pos() <= at.Pos() && at.End() <= n.End() && !(v.Pos() >= n.Pos() && v.Pos() <= n.End()) {
+				loops = append(loops, n)
+			}
+		}
+		return true
+	})
+	ast.Inspect(decl.Body, func(n ast.Node) bool {
+		if reason != "" {
+			return false
+		}
+		switch st := n.(type) {
+		case *ast.RangeStmt:
+			if !(li.lit.Pos() >= st.Body.Pos() && li.lit.End() <= st.Body.End()) {
+				return true
+			}
+			for _, e := range []ast.Expr{st.Key, st.Value} {
+				if id, ok := e.(*ast.Ident); ok && (li.info.Defs[id] == v || li.info.Uses[id] == v) && !u.Prog.perIterationLoopVars {
+					reason = ": it is the loop variable of an enclosing range loop (shared by all iterations under the module's Go version)"
+				}
+			}
+		case *ast.ForStmt:
+			if !(li.lit.Pos() >= st.Body.Pos() && li.lit.End() <= st.Body.End()) {
+				return true
+			}
+			if as, ok := st.Init.(*ast.AssignStmt); ok {
+				for _, l := range as.Lhs {
+					if id, ok := l.(*ast.Ident); ok && li.info.Defs[id] == v && !u.Prog.perIterationLoopVars {
+						reason = ": it is the loop variable of an enclosing for loop"
+					}
+				}
+			}
+		case *ast.AssignStmt:
+			if st.Pos() >= li.lit.Pos() && st.End() <= li.lit.End() {
+				return true
+			}
+			inLoop := false
+			for _, l := range loops {
+				if st.Pos() >= l.Pos() && st.End() <= l.End() {
+					inLoop = true
+				}
+			}
+			if st.Pos() < at.End() && !inLoop {
+				return true
+			}
+			for _, l := range st.Lhs {
+				if id, ok := l.(*ast.Ident); ok && li.info.Uses[id] == v {
+					reason = ": it is assigned again after the closure was handed away"
+				}
+			}
+		}
+		return true
+	})
+	return reason
 }
 
 // a literal whose creation the verifier has seen: by contract if it has one, else inlined in the current state
@@ -204,6 +347,8 @@ func (u *Unit) applyKnownLit(env *Env, li *litInfo, fn Term, sig *types.Signatur
 	u.Info = li.info
 	defer func() { u.Info, u.results, u.resTys, u.loops, u.lits = saveInfo, saveRes, saveTys, saveLoops, saveLits }()
 	u.loops, u.lits = numberLoops(li.owner.Decl)
+	u.curFn = append(u.curFn, li.owner)
+	defer func() { u.curFn = u.curFn[:len(u.curFn)-1] }()
 	i := 0
 	for _, fld := range li.lit.Type.Params.List {
 		for _, n := range fld.Names {
